@@ -41,8 +41,8 @@ PLANS["C11"] = {
     "thorough": [J("reqresp", "p=3,f=2,s=2,sel=1", 900), J("c11-idwrap", "thorough", 120, test="TestE3", shards=1)],
 }
 PLANS["C12"] = {
-    "quick": [J("shutdown1", "p=1,f=1,s=1", 60), J("shutdown1lazy", "p=1,f=1", 40), J("shutdownbig", "p=1,s=2", 40), J("shutdown2", "p=1,f=1,sel=1", 60), J("shutdown4", "p=1,f=1", 40)],
-    "thorough": [J("shutdown1", "p=2,f=1,s=2", 300), J("shutdown1lazy", "p=2,f=1,s=1", 300), J("shutdownbig", "p=2,s=2,f=1", 300), J("shutdown2", "p=2,f=1,s=2,sel=1", 300), J("shutdown3", "p=2,f=1,s=2,sel=1", 300), J("shutdown4", "p=2,f=1,s=2,sel=1", 300)],
+    "quick": [J("shutdown1", "p=1,f=1,s=1", 60), J("shutdown1lazy", "p=1,f=1", 40), J("shutdownbig", "p=1,s=2", 40), J("shutdown2", "p=1,f=1,sel=1", 60), J("shutdown4", "p=1,f=1", 40), J("shutdown5", "p=1,f=1,s=1", 40)],
+    "thorough": [J("shutdown1", "p=2,f=1,s=2", 300), J("shutdown1lazy", "p=2,f=1,s=1", 300), J("shutdownbig", "p=2,s=2,f=1", 300), J("shutdown2", "p=2,f=1,s=2,sel=1", 300), J("shutdown3", "p=2,f=1,s=2,sel=1", 300), J("shutdown4", "p=2,f=1,s=2,sel=1", 300), J("shutdown5", "p=2,f=1,s=2,sel=1", 300)],
 }
 
 PLANS["C04"] = {
@@ -92,8 +92,8 @@ PLANS["C14"] = {
 }
 
 PLANS["C16"] = {
-    "quick": [J("damage1", "c=1,s=1", 90), J("damagebulk1", "c=1,f=1", 60), J("damagebulk2", "c=1,f=1", 60), J("damagerel", "c=1,s=1", 40), J("damagerel2", "c=2", 60), J("damagefill", "c=2", 60), J("damagefs", "c=1,s=1", 60)],
-    "thorough": [J("damage1", "c=1,s=2,p=1", 600), J("damage2", "c=1,f=1,s=1", 900), J("damagebulk1", "c=1,f=1,s=1", 300), J("damagebulk2", "c=1,f=1,s=1", 300), J("damagerel", "c=1,s=2,p=1", 300), J("damagerel2", "c=2,s=1,f=1", 600), J("damagefill", "c=2,s=1,p=1", 400), J("damagefs", "c=2,s=1", 600)],
+    "quick": [J("damage1", "c=1,s=1", 90), J("damagebulk1", "c=1,f=1", 60), J("damagebulk2", "c=1,f=1", 60), J("damagerel", "c=1,s=1", 40), J("damagerel2", "c=2", 60), J("damagefill", "c=2", 60), J("damagefs", "c=1,s=1", 60), J("damagefs1", "c=1", 40)],
+    "thorough": [J("damage1", "c=1,s=2,p=1", 600), J("damage2", "c=1,f=1,s=1", 900), J("damagebulk1", "c=1,f=1,s=1", 300), J("damagebulk2", "c=1,f=1,s=1", 300), J("damagerel", "c=1,s=2,p=1", 300), J("damagerel2", "c=2,s=1,f=1", 600), J("damagefill", "c=2,s=1,p=1", 400), J("damagefs", "c=2,s=1", 600), J("damagefs1", "c=1,s=2,p=1", 300)],
 }
 
 PLANS["C19"] = {
